@@ -34,6 +34,8 @@ func init() {
 			"the datasource announces exactly the JSON fields the model serialises per __typename; the planner's input keys are the keys Source.Load decodes; the planner's includeDeprecated filter covers every collection whose elements carry isDeprecated and reads the key the model writes. " +
 			"It does not decide the round trip toSDL(fromIntrospection(generate(S))) ~ S nor the engine's answers as values.",
 		Mutants: []Mutant{
+			{Name: "the generator no longer enters object type extensions (reverts part of the F65 fix)", File: "v2/pkg/introspection/generator.go", Rule: "C17-R19", Key: "FieldDefinition-under-ObjectTypeExtension",
+				Old: "func (i *introspectionVisitor) EnterObjectTypeExtension(ref int) {\n\ti.enterType(i.definition.ObjectTypeExtensionNameString(ref), OBJECT)\n", New: "func (i *introspectionVisitor) EnterObjectTypeExtension(ref int) {\n"},
 			{Name: "number defaults are read through the sign-dropping accessor (seeded change C17-2)", File: "v2/pkg/introspection/generator.go", Rule: "C17-R15", Key: "introspectionVisitor.EnterInputValueDefinition/partial-value-accessor-under-kind-test",
 				Old: "\t\tprintedValue, err := i.definition.PrintValueBytes(value, nil)\n\t\tif err != nil {\n\t\t\ti.StopWithInternalErr(err)\n\t\t\treturn\n\t\t}\n\t\tprintedStr := unsafebytes.BytesToString(printedValue)\n", New: "\t\tprintedValue, err := i.definition.PrintValueBytes(value, nil)\n\t\tif err != nil {\n\t\t\ti.StopWithInternalErr(err)\n\t\t\treturn\n\t\t}\n\t\tprintedStr := unsafebytes.BytesToString(printedValue)\n\t\tif value.Kind == ast.ValueKindInteger || value.Kind == ast.ValueKindFloat {\n\t\t\tprintedStr = i.definition.ValueContentString(value)\n\t\t}\n"},
 			{Name: "a schema without mutation root loses its subscription root on import (seeded change C17-12)", File: "v2/pkg/ast/ast_root_operation_type_definition.go", Rule: "C17-R18", Key: "Document.ImportRootOperationTypeDefinitions/subscriptionTypeName-imported-or-absent",
@@ -68,14 +70,14 @@ func init() {
 			{Name: "converter imports a list as non-null", File: c17ConverterGo, Rule: "C17-R2", Key: "importType/wraps:LIST",
 				Old: "\t\treturn j.doc.AddListType(j.importType(*typeRef.OfType))", New: "\t\treturn j.doc.AddNonNullType(j.importType(*typeRef.OfType))"},
 			{Name: "type references to unions get no kind", File: c17GeneratorGo, Rule: "C17-R2", Key: "TypeRef/produces:UNION",
-				Old: "\t\tcase ast.NodeKindUnionTypeDefinition:\n\t\t\ttypeKind = UNION\n", New: ""},
+				Old: "\t\tcase ast.NodeKindUnionTypeDefinition, ast.NodeKindUnionTypeExtension:\n\t\t\ttypeKind = UNION\n", New: ""},
 			{Name: "references to interfaces are typed OBJECT", File: c17GeneratorGo, Rule: "C17-R2", Key: "TypeRef/ref-kind:InterfaceTypeDefinition",
-				Old: "\t\tcase ast.NodeKindInterfaceTypeDefinition:\n\t\t\ttypeKind = INTERFACE\n", New: "\t\tcase ast.NodeKindInterfaceTypeDefinition:\n\t\t\ttypeKind = OBJECT\n"},
+				Old: "\t\tcase ast.NodeKindInterfaceTypeDefinition, ast.NodeKindInterfaceTypeExtension:\n\t\t\ttypeKind = INTERFACE\n", New: "\t\tcase ast.NodeKindInterfaceTypeDefinition, ast.NodeKindInterfaceTypeExtension:\n\t\t\ttypeKind = OBJECT\n"},
 			{Name: "directive arguments not collected", File: c17GeneratorGo, Rule: "C17-R2", Key: "sink:Directive.Args",
 				Old: "\tcase ast.NodeKindDirectiveDefinition:\n\t\ti.currentDirective.Args = append(i.currentDirective.Args, inputValue)\n", New: ""},
 			{Name: "field arguments filed under the input object", File: c17GeneratorGo, Rule: "C17-R2", Key: "sink:Field.Args",
-				Old: "\tcase ast.NodeKindInputObjectTypeDefinition:\n\t\ti.currentType.InputFields = append(i.currentType.InputFields, inputValue)\n\tcase ast.NodeKindFieldDefinition:\n",
-				New: "\tcase ast.NodeKindFieldDefinition:\n\t\ti.currentType.InputFields = append(i.currentType.InputFields, inputValue)\n\tcase ast.NodeKindInputObjectTypeDefinition:\n"},
+				Old: "\tcase ast.NodeKindInputObjectTypeDefinition, ast.NodeKindInputObjectTypeExtension:\n\t\ti.currentType.InputFields = append(i.currentType.InputFields, inputValue)\n\tcase ast.NodeKindFieldDefinition:\n",
+				New: "\tcase ast.NodeKindFieldDefinition:\n\t\ti.currentType.InputFields = append(i.currentType.InputFields, inputValue)\n\tcase ast.NodeKindInputObjectTypeDefinition, ast.NodeKindInputObjectTypeExtension:\n"},
 			{Name: "subscription root type not recorded", File: c17GeneratorGo, Rule: "C17-R2", Key: "root:OperationTypeSubscription",
 				Old: "\tcase ast.OperationTypeSubscription:\n\t\ti.subscriptionTypeName = i.definition.Input.ByteSliceString(i.definition.RootOperationTypeDefinitions[ref].NamedType.Name)\n", New: ""},
 			// R3
@@ -112,8 +114,8 @@ func init() {
 				Old: "\t\tbuf.Write(comma)\n\t\tbuf.Write(typeNameField)\n", New: ""},
 			// R9
 			{Name: "union types declared but never added to the schema", File: c17GeneratorGo, Rule: "C17-R9", Key: "UnionTypeDefinition/committed",
-				Old: "func (i *introspectionVisitor) LeaveUnionTypeDefinition(ref int) {\n\tif strings.HasPrefix(i.currentType.Name, \"__\") {\n\t\treturn\n\t}\n\ti.data.Schema.AddType(i.currentType)\n",
-				New: "func (i *introspectionVisitor) LeaveUnionTypeDefinition(ref int) {\n\tif strings.HasPrefix(i.currentType.Name, \"__\") {\n\t\treturn\n\t}\n"},
+				Old: "func (i *introspectionVisitor) LeaveUnionTypeDefinition(ref int) {\n\ti.leaveType()\n",
+				New: "func (i *introspectionVisitor) LeaveUnionTypeDefinition(ref int) {\n"},
 			{Name: "scalars declared but never added to the schema", File: c17GeneratorGo, Rule: "C17-R9", Key: "ScalarTypeDefinition/committed",
 				Old: "\ti.data.Schema.AddType(typeDefinition)\n", New: ""},
 			// R10
@@ -244,6 +246,7 @@ func runC17(r *fw.Run) {
 		n := kindRefAgreement(r, "C17-R16", []string{"introspection", "astimport"}, nil)
 		r.Expect("C17-R16", "kind-specific uses of a value's ref", n, 8)
 		c17EveryRootTypeImportedOrAbsent(r)
+		c17GeneratorContextComplete(r)
 		r.Rule("C17-R17", "a scratch slice that a loop of the introspection converter / generator re-uses (v = v[:0] per iteration) is never stored or handed to a retaining parameter inside that loop")
 		nSS := scratchSliceDoesNotEscape(r, "C17-R17", []string{"introspection", "astimport", "ast"})
 		if nSS == 0 {
@@ -499,6 +502,10 @@ func c17Kinds(r *fw.Run, pk *packages.Package, info *types.Info, kindT types.Typ
 		node := nm[i+len(".Enter"):]
 		fw.WalkAll(fi.Decl.Body, func(n ast.Node) bool {
 			switch x := n.(type) {
+			case *ast.CallExpr:
+				if k, _, viaHelper := c17KindViaHelper(p, info, x); viaHelper {
+					declared[node], declPos[node] = k, x.Pos()
+				}
 			case *ast.AssignStmt:
 				for j, l := range x.Lhs {
 					if j < len(x.Rhs) && fw.IsFieldSel(info, l, "introspection", "FullType", "Kind") {
@@ -706,9 +713,17 @@ func c17Kinds(r *fw.Run, pk *packages.Package, info *types.Info, kindT types.Typ
 			if s != nil {
 				pos, fn, arms = s.pos, s.fn, c17Keys(s.arms)
 			}
-			ok = s != nil && len(s.arms) == 1 && s.arms[ownerKind[tn]]
+			// the owner's kind, and the extension of that kind (whose members belong to the same owner), nothing else
+			ok = s != nil && s.arms[ownerKind[tn]]
+			if s != nil {
+				for a := range s.arms {
+					if a != ownerKind[tn] && a != strings.Replace(ownerKind[tn], "Definition", "Extension", 1) {
+						ok = false
+					}
+				}
+			}
 			r.Check(ok, "C17-R2", "input-values/sink:"+key, p.Pos(pos), "input values whose parent is a "+strings.TrimPrefix(ownerKind[tn], "NodeKind")+" are appended to "+key+" by "+fn,
-				key+" is appended to under ancestor kinds ["+strings.Join(arms, ",")+"], expected exactly "+ownerKind[tn]+": arguments / input fields are missing from, or filed under the wrong owner in, the introspection data of every schema that has them")
+				key+" is appended to under ancestor kinds ["+strings.Join(arms, ",")+"], expected "+ownerKind[tn]+" (and at most its extension kind): arguments / input fields are missing from, or filed under the wrong owner in, the introspection data of every schema that has them")
 		}
 	}
 	r.Expect("C17-R2", "[]InputValue collections of the model", nColl, 3)
@@ -817,8 +832,31 @@ func c17ModelAgreement(r *fw.Run, pk *packages.Package, model map[string]*types.
 	}
 	byKind := map[string]*kindW{}
 	fullOnly := map[string]bool{"FullType": true}
+	// a helper that stores its kind parameter in FullType.Kind (enterType(name, kind)): parameter index, and what it writes
+	kindParam := map[*fw.FuncInfo]int{}
+	for _, fi := range allGen {
+		sig := fi.Obj.Type().(*types.Signature)
+		for i := 0; i < sig.Params().Len(); i++ {
+			if !types.Identical(sig.Params().At(i).Type(), kindT) {
+				continue
+			}
+			fw.WalkAll(fi.Decl.Body, func(n ast.Node) bool {
+				if as, ok := n.(*ast.AssignStmt); ok {
+					for j, l := range as.Lhs {
+						if j < len(as.Rhs) && fw.IsFieldSel(info, l, "introspection", "FullType", "Kind") {
+							if id, isID := ast.Unparen(as.Rhs[j]).(*ast.Ident); isID && info.Uses[id] == sig.Params().At(i) {
+								kindParam[fi] = i
+							}
+						}
+					}
+				}
+				return true
+			})
+		}
+	}
 	for _, fi := range allGen {
 		var kind string
+		var helper *fw.FuncInfo
 		fw.WalkAll(fi.Decl.Body, func(n ast.Node) bool {
 			if as, ok := n.(*ast.AssignStmt); ok {
 				for j, l := range as.Lhs {
@@ -829,10 +867,36 @@ func c17ModelAgreement(r *fw.Run, pk *packages.Package, model map[string]*types.
 					}
 				}
 			}
+			if call, ok := n.(*ast.CallExpr); ok {
+				if callee := p.FuncOf(fw.Callee(info, call)); callee != nil {
+					if i, isHelper := kindParam[callee]; isHelper && i < len(call.Args) {
+						if c := fw.ConstObj(info, call.Args[i]); c != nil && types.Identical(c.Type(), kindT) {
+							kind, helper = c.Name(), callee
+						}
+					}
+				}
+			}
 			return true
 		})
-		if kind != "" {
-			byKind[kind] = &kindW{fi, fw.ModelFieldUses([]*fw.FuncInfo{fi}, "introspection", fullOnly).Writes}
+		if kind == "" {
+			continue
+		}
+		fns := []*fw.FuncInfo{fi}
+		if helper != nil {
+			fns = append(fns, helper)
+		}
+		writes := fw.ModelFieldUses(fns, "introspection", fullOnly).Writes
+		// a kind is declared by its definition callback and, since extensions are entered too, by its extension callback:
+		// what either of them records has to be read back
+		if kw := byKind[kind]; kw != nil {
+			for f, ps := range writes {
+				kw.writes[f] = append(kw.writes[f], ps...)
+			}
+			if strings.Contains(fi.Name(), "Definition") {
+				kw.fn = fi
+			}
+		} else {
+			byKind[kind] = &kindW{fi, writes}
 		}
 	}
 	r.Expect("C17-R4", "kind-declaring generator callbacks", len(byKind), 6)
@@ -1155,7 +1219,8 @@ func c17Committed(r *fw.Run, pk *packages.Package, allGen []*fw.FuncInfo) {
 	info := pk.TypesInfo
 	r.Rule("C17-R9", "every type the generator declares reaches the schema: the FullType an Enter…TypeDefinition callback gives a kind to is handed to the function that fills Schema.Types, in that callback or in the matching Leave… callback")
 	// the committing functions: those that store into Schema.Types (C17-R6 sites)
-	commits := func(fi *fw.FuncInfo, holder string) bool {
+	var commitsAt func(fi *fw.FuncInfo, holder string, depth int) bool
+	commitsAt = func(fi *fw.FuncInfo, holder string, depth int) bool {
 		found := false
 		fw.WalkAll(fi.Decl.Body, func(nd ast.Node) bool {
 			c, ok := nd.(*ast.CallExpr)
@@ -1175,10 +1240,17 @@ func c17Committed(r *fw.Run, pk *packages.Package, allGen []*fw.FuncInfo) {
 					found = true
 				}
 			}
+			// a helper of the visitor that commits the holder itself (leaveType())
+			if !found && cf != fi && depth < 2 && cf.Pkg == fi.Pkg && cf.Decl.Recv != nil {
+				if commitsAt(cf, holder, depth+1) {
+					found = true
+				}
+			}
 			return true
 		})
 		return found
 	}
+	commits := func(fi *fw.FuncInfo, holder string) bool { return commitsAt(fi, holder, 0) }
 	nDecl := 0
 	for _, fi := range allGen {
 		nm := fi.Name()
@@ -1199,6 +1271,11 @@ func c17Committed(r *fw.Run, pk *packages.Package, allGen []*fw.FuncInfo) {
 					}
 				}
 			}
+			if call, ok := nd.(*ast.CallExpr); ok {
+				if k, h, viaHelper := c17KindViaHelper(p, info, call); viaHelper {
+					holder, kind = h, k
+				}
+			}
 			return true
 		})
 		if holder == nil {
@@ -1213,6 +1290,9 @@ func c17Committed(r *fw.Run, pk *packages.Package, allGen []*fw.FuncInfo) {
 			if v, _ := fw.Field(info, holder); v != nil {
 				if lf := p.Func("introspection", recv+".Leave"+node); lf != nil {
 					where = lf.Name()
+					if commits(lf, hk) { // through a helper of the visitor that commits the holder itself
+						ok = true
+					}
 					fw.WalkAll(lf.Decl.Body, func(nd ast.Node) bool {
 						if sel, isSel := nd.(*ast.SelectorExpr); isSel && !ok {
 							if lv, _ := fw.Field(info, sel); lv == v {
@@ -2152,4 +2232,200 @@ func c17EveryRootTypeImportedOrAbsent(r *fw.Run) {
 		in.Run(nil)
 	}
 	r.Expect("C17-R18", "exits × root type names of the root operation type importer", n, 3)
+}
+
+// c17GeneratorContextComplete (R19): the generator keeps "the type (field, directive) being described" in visitor fields
+// that the callbacks of the enclosing node set and the callbacks of the members use. The walker also visits the members
+// of nodes the visitor has no callback for — the field definitions of `extend type X { … }` are walked whether or not
+// anything is registered for ObjectTypeExtension — and the member callbacks then use whatever the field pointed to
+// before: the members land on the type visited last, or the pointer is nil. The parent relation is read from the walker
+// itself (walk<P> calls walk<K>). For every member kind K whose callbacks use inherited state (a visitor field that some
+// Enter<P'> re-binds and K's own Enter does not), the visitor implements Enter<P> for every parent kind P of K and that
+// Enter<P> re-binds at least one of the inherited fields K uses (directly or through a method of the visitor).
+func c17GeneratorContextComplete(r *fw.Run) {
+	p := r.Prog
+	r.Rule("C17-R19", "for every member callback of the introspection generator that uses state set by an enclosing node's callback, the visitor enters every parent kind under which the walker visits that member (read from the walker: walk<P> calls walk<K>) and re-binds that state there")
+	// 1. parent relation from the walker
+	parents := map[string][]string{}
+	kinds := map[string]bool{}
+	for _, fi := range p.Funcs("astvisitor") {
+		if fi.Decl.Recv == nil || !strings.HasPrefix(fi.Name(), "Walker.walk") {
+			continue
+		}
+		parent := strings.TrimPrefix(fi.Name(), "Walker.walk")
+		kinds[parent] = true
+		info := fi.Info()
+		seen := map[string]bool{}
+		fw.WalkAll(fi.Decl.Body, func(nd ast.Node) bool {
+			if c, ok := nd.(*ast.CallExpr); ok {
+				if callee := p.FuncOf(fw.Callee(info, c)); callee != nil && strings.HasPrefix(callee.Name(), "Walker.walk") {
+					child := strings.TrimPrefix(callee.Name(), "Walker.walk")
+					if child != parent && !seen[child] {
+						seen[child] = true
+						parents[child] = append(parents[child], parent)
+					}
+				}
+			}
+			return true
+		})
+	}
+	// 2. the visitor's methods
+	methods := map[string]*fw.FuncInfo{}
+	for _, fi := range p.Funcs("introspection") {
+		if strings.HasPrefix(fi.Name(), "introspectionVisitor.") {
+			methods[strings.TrimPrefix(fi.Name(), "introspectionVisitor.")] = fi
+		}
+	}
+	rebindsMemo := map[*fw.FuncInfo]map[string]bool{}
+	var rebinds func(fi *fw.FuncInfo, depth int) map[string]bool
+	rebinds = func(fi *fw.FuncInfo, depth int) map[string]bool {
+		if m, ok := rebindsMemo[fi]; ok {
+			return m
+		}
+		out := map[string]bool{}
+		rebindsMemo[fi] = out
+		recv := receiverObj(fi)
+		info := fi.Info()
+		fw.WalkAll(fi.Decl.Body, func(nd ast.Node) bool {
+			switch x := nd.(type) {
+			case *ast.AssignStmt:
+				for _, l := range x.Lhs {
+					if sel, ok := ast.Unparen(l).(*ast.SelectorExpr); ok {
+						if id, isID := ast.Unparen(sel.X).(*ast.Ident); isID && recv != nil && info.ObjectOf(id) == recv {
+							if fv, _ := fw.Field(info, sel); fv != nil {
+								out[fv.Name()] = true
+							}
+						}
+					}
+				}
+			case *ast.CallExpr:
+				if depth < 2 {
+					if callee := p.FuncOf(fw.Callee(info, x)); callee != nil && strings.HasPrefix(callee.Name(), "introspectionVisitor.") && callee != fi {
+						for f := range rebinds(callee, depth+1) {
+							out[f] = true
+						}
+					}
+				}
+			}
+			return true
+		})
+		return out
+	}
+	uses := func(fi *fw.FuncInfo) map[string]bool {
+		out := map[string]bool{}
+		recv := receiverObj(fi)
+		info := fi.Info()
+		fw.WalkAll(fi.Decl.Body, func(nd ast.Node) bool {
+			if sel, ok := nd.(*ast.SelectorExpr); ok {
+				if id, isID := ast.Unparen(sel.X).(*ast.Ident); isID && recv != nil && info.ObjectOf(id) == recv {
+					if fv, _ := fw.Field(info, sel); fv != nil {
+						out[fv.Name()] = true
+					}
+				}
+			}
+			return true
+		})
+		return out
+	}
+	// state fields: re-bound by the Enter callback of some kind
+	reboundBy := map[string]map[string]bool{} // field → kinds whose Enter re-binds it
+	for k := range kinds {
+		if m := methods["Enter"+k]; m != nil {
+			for f := range rebinds(m, 0) {
+				if reboundBy[f] == nil {
+					reboundBy[f] = map[string]bool{}
+				}
+				reboundBy[f][k] = true
+			}
+		}
+	}
+	n := 0
+	var ks []string
+	for k := range kinds {
+		ks = append(ks, k)
+	}
+	sort.Strings(ks)
+	for _, k := range ks {
+		inherited := map[string]bool{}
+		for _, cb := range []string{"Enter" + k, "Leave" + k} {
+			m := methods[cb]
+			if m == nil {
+				continue
+			}
+			for f := range uses(m) {
+				if len(reboundBy[f]) > 0 && !reboundBy[f][k] {
+					// only fields whose type can hold "the node being described" (pointers, structs), not scalars
+					inherited[f] = true
+				}
+			}
+		}
+		if len(inherited) == 0 {
+			continue
+		}
+		var fs []string
+		for f := range inherited {
+			fs = append(fs, f)
+		}
+		sort.Strings(fs)
+		ps := append([]string(nil), parents[k]...)
+		sort.Strings(ps)
+		for _, par := range ps {
+			n++
+			m := methods["Enter"+par]
+			ok := false
+			if m != nil {
+				rb := rebinds(m, 0)
+				for _, f := range fs {
+					if rb[f] {
+						ok = true
+					}
+				}
+			}
+			pos := ""
+			if mk := methods["Enter"+k]; mk != nil {
+				pos = p.Pos(mk.Decl.Pos())
+			} else if mk := methods["Leave"+k]; mk != nil {
+				pos = p.Pos(mk.Decl.Pos())
+			}
+			r.Check(ok, "C17-R19", k+"-under-"+par, pos, "the generator enters "+par+" and re-binds the state ("+strings.Join(fs, "/")+") its "+k+" callbacks use",
+				"the walker visits "+k+" nodes below "+par+", the generator's "+k+" callbacks use "+strings.Join(fs, "/")+", but no Enter"+par+" of the generator re-binds it: the members of such a node are attributed to the node described before (an invented member there, a missing one here), or the state is nil and the generator panics — inside NewExecutionEngine")
+		}
+	}
+	r.Expect("C17-R19", "member kind × parent kind pairs of the generator", n, 10)
+}
+
+// c17KindViaHelper: the generator declares the kind of the type it describes either by assigning a constant to
+// FullType.Kind in the callback itself, or by calling a helper of the package that stores its kind parameter in
+// FullType.Kind (enterType(name, kind)). For a call of such a helper with a constant kind it returns the constant's name,
+// the helper's holder expression (what it assigns .Kind on) and the position.
+func c17KindViaHelper(p *fw.Prog, info *types.Info, call *ast.CallExpr) (kind string, holder ast.Expr, ok bool) {
+	callee := p.FuncOf(fw.Callee(info, call))
+	if callee == nil {
+		return "", nil, false
+	}
+	sig := callee.Obj.Type().(*types.Signature)
+	cinfo := callee.Info()
+	for i := 0; i < sig.Params().Len() && i < len(call.Args); i++ {
+		pv := sig.Params().At(i)
+		var h ast.Expr
+		fw.WalkAll(callee.Decl.Body, func(n ast.Node) bool {
+			if as, isAs := n.(*ast.AssignStmt); isAs {
+				for j, l := range as.Lhs {
+					if j < len(as.Rhs) && fw.IsFieldSel(cinfo, l, "introspection", "FullType", "Kind") {
+						if id, isID := ast.Unparen(as.Rhs[j]).(*ast.Ident); isID && cinfo.Uses[id] == pv {
+							h = ast.Unparen(l).(*ast.SelectorExpr).X
+						}
+					}
+				}
+			}
+			return true
+		})
+		if h == nil {
+			continue
+		}
+		if c := fw.ConstObj(info, call.Args[i]); c != nil {
+			return c.Name(), h, true
+		}
+	}
+	return "", nil, false
 }
